@@ -42,6 +42,8 @@ def gen_pool(rng, rich=True):
         for k in ('pass_worker_id', 'use_worker_state', 'shared_objects', 'order_tasks', 'enable_insights', 'keep_alive'):
             if rng.random() < .3:
                 p[k] = True
+        if p.get('shared_objects') and rng.random() < .3:
+            p['shared_objects'] = 'falsy'       # enabled means "not None": an empty container is passed on like any other object
     return p
 
 
@@ -148,3 +150,33 @@ def schedule_rules(rng, n_jobs):
         {'role': 'results_handler', 'op': 'array.set+', 'obj': None, 'sleep': rng.choice([0.02, 0.1]), 'p': .4},
     ]
     return rng.sample(lib, rng.choice([1, 1, 2]))
+
+
+def two_pool_scenarios(rng, n):
+    """the pool under test shares its process with a second pool that has a lazy call in flight, consumed bit by bit between the
+    operations of the first (pools of different sizes, the second one with or without worker restarts); one of the two may be
+    stopped or terminated while the other goes on"""
+    out = []
+    for _ in range(n):
+        nj = rng.choice([1, 2, 3])
+        pool = {'n_jobs': nj, 'start_method': 'fork'}
+        if rng.random() < .3:
+            pool['keep_alive'] = True
+        nb = rng.choice([x for x in (1, 2, 3, 4, 5) if x != nj])
+        total = rng.randint(12, 24)
+        ops = [{'op': 'other_pool', 'do': 'open', 'n_jobs': nb, 'n': total, 'kind': rng.choice(['imap_unordered', 'imap']),
+                'lifespan': rng.choice([None, 2, 3])},
+               {'op': 'other_pool', 'do': 'take', 'k': rng.randint(1, 3)}]
+        for k in range(rng.randint(1, 3)):
+            op = gen_map_op(rng, nj, small=True)
+            op.pop('progress_bar', None)
+            ops.append(op)
+            if rng.random() < .3:
+                ops.append({'op': rng.choice(['stop_and_join', 'terminate'])})
+            ops.append({'op': 'other_pool', 'do': 'take', 'k': rng.randint(1, 4)})
+        ops.append({'op': 'other_pool', 'do': 'finish'})
+        if rng.random() < .5:
+            ops.append(dict(gen_map_op(rng, nj, small=True)))
+            ops[-1].pop('progress_bar', None)
+        out.append({'seed': rng.randint(0, 10 ** 6), 'pool': pool, 'ops': ops, 'all_valid': not any(o['op'] == 'terminate' for o in ops), 'two_pools': True})
+    return out
